@@ -12,6 +12,9 @@ DEFAULT_NOTE = ("Trusted: Lean 4.33 kernel; axioms propext, Classical.choice, Qu
                 "standard, not present in the sandbox; C++ object lifetime and aliasing are modelled by immutable values.")
 LEVEL_NOTE = {}
 LEVEL_TEXT = {
+    "C03": "Theorem accessors_inbounds: for each of the seven typed payload classes, if the (repaired) validator accepts a buffer then the checked-read model of every accessor never reads outside it and every reported view (data pointer+length, strings, stream ids, vendor data, sample block) lies inside it - all buffers, all lengths, incl. the 16-bit wrap of the padded stream-id count; decoded_accessors_inbounds lifts it to every packet the decoder returns as valid (any state, any buffer), msgValid_inbounds to the packet constructor. Tied to the code by `val`/`mkpkt`/`dec access`: validator verdict and (offset,len) of every view computed from real pointers, each view touched byte by byte under ASan.",
+    "C13": "Per builder (CAN, CAN-FD, LIN, Ethernet, analog, capture-module, interface) theorems *_setData: lengths, data at the table's offset, header fields preserved, DLC = ISO 11898 code, NUL termination and even zero padding of strings, zero pad byte of odd id lists, validator accepts and Packet::create keeps the type (hypothesis for CAN/Ethernet/analog/interface: no error flag / in-range enum set earlier - the excluded case is exercised on the real code), accessors return exactly the data; *_canonical: the bytes depend only on the preserved header fields and the last call's data. dlc_ok ties the real encodeDlc (all 256 inputs, regenerated every run) to the model's table. Tied to the code by the `bld` correspondence and a protocol-table predicate on the implementation's raw bytes.",
+    "C14": "Model: copy/move/assignment as functions on values, both operator== as Bool functions. Theorems: copy_obs/assign_obs/self_assign/move_obs/move_assign_obs (target = source's former value whatever it held), packetEq_refl, packetEq_symm, packetNe_not, packetEq_fieldwise (equality = equality of all fields for payloads of 1..65535 bytes), payloadEq_iff. PARTIAL: 'a copy shares no state with its original' is about aliasing, which immutable model values cannot exhibit; the harness observes it (mutate and destroy the copy, re-read the original) on every generated script.",
     "C01": "Theorem C01_roundtrip: for EVERY encoder state (any history), every decoder state (any history, even a stale reassembly on the same endpoint), every non-empty batch of well-formed packets (payload 1..65535 bytes that passes its type's validator, message type and payload type byte non-zero, one version >= 1, flags without error-in-payload) and every configuration with 25 <= max, min <= max, decoding the serialised frames in order returns exactly the sent packets (type, bytes, message type, timestamp, interface/vendor id by message type, version, non-segmentation flags, tagged with the encoder's ids) and leaves nothing pending. Proof: parse-after-serialise lemmas for frames, the encoder's fold invariant (pieces), the reassembly theorems of C05, counters from C09/C10; unbounded. Tied to the code by round trips through the real encoder and decoder; the predicate P_C01 of the theorem is evaluated by the Lean driver on the packets the real decoder returned.",
     "C11": "Generic theorems get_set_same / get_set_other / set_frame / set_set_comm / set_set_same / set_get_id over `setField`/`getField` (a field = bit range in a big-endian word), for every buffer, every in-range value and ANY disjoint bit range (table field, flag or reserved bits), instantiated for all 16 class tables by kernel-checked table facts (tables_wf, tables_words_ok, tables_alias_overlap) into C11_all_classes; masks_ok ties the library's private mask constants (regenerated from /repo's headers on every run) to the table's bit ranges. Tied to the setters/getters by the `fld` correspondence (every class, every field, all in-range values up to 8/16 bits, zero/ones/random backgrounds, chains) and the table predicate evaluated on the implementation's raw bytes and getters.",
     "C12": "The model's tables ARE the protocol layout (written from the standard, vlib/layout.py -> Layout.lean); theorems get_is_be / set_is_be say reads and writes are the big-endian value at the table's offset/width/bit position; defaults_ok: default objects are zero apart from the protocol defaults (so reserved bits are zero) and C11_all_classes keeps reserved bits untouched; GenChecks sizes_ok / offsets_ok / masks_ok / enums_ok are `decide` obligations over constants regenerated from /repo's headers on every run (sizeof, offsetof of every member, masks, enum values): a moved member, changed width or mask breaks the build. Behavioural tie: `fld` correspondence in both directions (API write -> raw bytes; hand-laid-out bytes -> getters).",
@@ -98,12 +101,17 @@ reg(Spec("C12", "Headers and payload fields use the ASAM CMP / TECMP wire layout
          assumptions=["float fields travel as 32-bit patterns; NaN patterns are excluded from generation"]))
 
 
-reg(Spec("C03", "Payloads accepted by validation expose only in-bounds data", [], [], [], gen_val.gen_c03, predicate=gen_val.pred_c03,
+reg(Spec("C03", "Payloads accepted by validation expose only in-bounds data", ["AsamCmp.Props.C03"],
+         ["AsamCmp.C03.accessors_inbounds", "AsamCmp.C03.kinds_total", "AsamCmp.C03.msgValid_inbounds", "AsamCmp.C03.create_valid", "AsamCmp.C03.validator_kind", "AsamCmp.C03.decoded_accessors_inbounds"], ["AsamCmp.Props.C03"], gen_val.gen_c03, predicate=gen_val.pred_c03,
          rule="per class: every buffer length 0..header+8 x {zeros, ones, random}; every inner length field x {0, fits-1, fits, fits+1, max}; every truncation of well-formed status payloads; random content; a 65.6 KiB interface payload with count 0xFFFF; message-level buffers; accessors of decoded and TECMP-converted packets; views are touched byte by byte under ASan"))
 
 
-reg(Spec("C13", "Payload builders store data faithfully and produce self-valid payloads", [], [], [], gen_bld.gen_c13, predicate=gen_bld.pred_c13,
+reg(Spec("C13", "Payload builders store data faithfully and produce self-valid payloads", ["AsamCmp.Props.C13", "AsamCmp.Props.GenChecks"],
+         ["AsamCmp.C13.can_setData", "AsamCmp.C13.can_setData_valid", "AsamCmp.C13.can_setData_canonical", "AsamCmp.C13.dlc_iso", "AsamCmp.C13.lin_setData", "AsamCmp.C13.lin_setData_canonical", "AsamCmp.C13.eth_setData", "AsamCmp.C13.eth_setData_canonical", "AsamCmp.C13.analog_setData", "AsamCmp.C13.analog_setData_canonical", "AsamCmp.C13.cmString_spec", "AsamCmp.C13.cm_setData", "AsamCmp.C13.cm_setData_canonical", "AsamCmp.C13.if_setData", "AsamCmp.C13.if_setData_canonical", "AsamCmp.C13.defaults_valid", "AsamCmp.GenChecks.dlc_ok"], ["AsamCmp.Props.C13", "AsamCmp.Props.GenChecks"], gen_bld.gen_c13, predicate=gen_bld.pred_c13,
          rule="every data length 0..255 (CAN/CAN-FD/LIN), {0,1,2,63,64,65,1499,65529}+random (Ethernet/analog), strings 0..40/255/256/1000, id lists of every parity, on default objects and on objects that held longer/shorter/different data (chains of 2..4 setData calls); predicate: raw bytes equal the protocol-table layout of the last call's data with the earlier header fields preserved, validator and decoder accept"))
+
+
+NOT_CLAIMED.update({})
 
 
 def replay(path):
